@@ -2,7 +2,7 @@
 from common import *
 import itertools, scripts
 
-THEOREMS = []
+THEOREMS = ['refines', 'decode_run', 'accepts_iff', 'accepts_consumes', 'rejects', 'accepts_runG', 'rejects_runG', 'definite_parent', 'indefinite_parent', 'suffix_lemma', 'pnv_eq']
 RULE = ("run <mode> slice <octets> all  (read every value, descend, take primitive contents) on: trees generated from the grammar "
         "(depth <= 4, all tag sizes, every legal length form per mode, definite/indefinite mixes) encoded for the same or another mode, "
         "their structural mutations (identifier/length octets, child length vs parent +-1, EOC placement, truncation at every offset), "
@@ -91,5 +91,5 @@ def nontrivial(req, ans):
     return ans.startswith("ok v")
 
 LEVEL = "proof"
-LEVEL_TEXT = "see THEOREMS"
-LEVEL_NOTE = ""
+LEVEL_TEXT = ("Lean 4 theorems, for ALL octet strings, all three modes and every enclosing context (top level; definite parent with any number of octets left, incl. more than the source holds; indefinite parent; any nesting depth): the generic reader over the model of Constructed::process_next_value (readAll/readValue in lean/Bcder/Model/Generic.lean) succeeds exactly when the X.690 sub-list grammar of lean/Bcder/Spec/Tlv.lean accepts, returns exactly the encoded trees (class, number, constructed flag, nesting, primitive contents, definite/indefinite form), nested values inherit the mode, and the source is left exactly behind the last value read (refines: DS/IS/US/VS; decode_run, accepts_iff, accepts_consumes, rejects for Mode::decode at top level; accepts_runG/rejects_runG lift to the generous layer the driver executes). pnv_eq gives process_next_value as a closed function of the limited view for ANY closure, the per-mode form checks included. Correspondence: the driver answers every purely generic read with both the tree reader and the trace reader and flags any difference; impl vs model vs grammar on ~100k inputs per quick run (all strings of <= 2 octets, boundary alphabet of <= 4 octets, damaged/valid structured inputs), exact-count reads, nested mode switches.")
+LEVEL_NOTE = ("Trusted: Lean 4.33 kernel; axioms propext, Classical.choice, Quot.sound only; the hand-written model (lean/Bcder/Model) tied to /repo on every run by differential correspondence (tools/check.py, harness/, lean/Driver.lean); the grammar lean/Bcder/Spec/Tlv.lean is the reading of X.690 that is trusted. Theorems are stated with an explicit recursion fuel shared by reader and grammar (the driver uses input length + 4; the Rust code is bounded by its stack instead); mode switches inside a read and reads of a caller-chosen number of values are covered by the correspondence check, not by a theorem. Stated on runG0 = SliceSource semantics; C07 carries capture-free reads to every conforming source.")
